@@ -62,7 +62,7 @@ def _enum(tier, shard, nshards):
 
 
 PHASES = [
-    HypPhase("dyadic", _case, dict(quick=3000, thorough=40000)),
+    HypPhase("dyadic", _case, dict(quick=4500, thorough=40000)),
     EnumPhase("grid4x3", _enum,
               lambda tier: "all ordered triples of subsets of {0..4} on [0,4] x "
                            "(MRTS,max_tau) in {(0,None),(2,None),(0,1)} with thresholds "
